@@ -43,32 +43,36 @@ def lockedBody (s : St) (ctrl : W) (fn : St → W → Ret × St) : Ret × St :=
       | (e, s) => (e, s)
     (body.1, wRelease body.2 locked)
 
-/-- `defer func() { _ = ctrl.Rollback(ctx) }()` of `handleState`: runs on every exit
-    after `BeginTX` succeeded; its result is ignored. -/
-def deferRollback (ctrl : W) (p : Ret × St) : Ret × St := (p.1, (wRollback p.2 ctrl).2)
+/-- `controllerFacade.handleState(ctx, dryRun, fn)` on a facade whose wrapped
+    controller is `c` and whose cached ledger state is `inUse`; returns the new
+    cached state as third component.
 
-/-- `controllerFacade.handleState(ctx, dryRun, fn)`. -/
-def handleState (s : St) (dry : Bool) (fn : St → W → Ret × St) : Ret × St :=
-  if s.inUse then fn s .root
+    `defer func() { if !finished { _ = ctrl.Rollback(ctx) } }()`: the deferred
+    rollback only runs on the exits before the explicit `Commit` / `Rollback`. -/
+def handleState (s : St) (c : W) (inUse : Bool) (dry : Bool) (fn : St → W → Ret × St) :
+    Ret × St × Bool :=
+  if inUse then ((fn s c).1, (fn s c).2, true)
   else
-    match wBegin s .root with
-    | (.error e, s) => (e, s)
+    match wBegin s c with
+    | (.error e, s) => (e, s, false)
     | (.ok ctrl, s) =>
       match lockedBody s ctrl fn with
       | (.ok, s) =>
         if !dry then
           match wCommit s ctrl with
-          | (.ok, s) => deferRollback ctrl (.ok, { s with inUse := true })
-          | (e, s) => deferRollback ctrl (e, s)
+          | (.ok, s) => (.ok, s, true)
+          | (e, s) => (e, s, false)
         else
           match wRollback s ctrl with
-          | (.ok, s) => deferRollback ctrl (.ok, s)
-          | (e, s) => deferRollback ctrl (e, s)
-      | (e, s) => deferRollback ctrl (e, s)
+          | (.ok, s) => (.ok, s, false)
+          | (e, s) => (e, s, false)
+      | (e, s) => (e, (wRollback s ctrl).2, false)
 
-/-- A write method of the state-tracker facade. -/
+/-- A write method of the root state-tracker facade (wraps the root events wrapper;
+    its cached state is `St.inUse`). -/
 def facadeWrite (s : St) (k : Kind) (dry : Bool) (w : Nat) : Ret × St :=
-  handleState s dry (fun s c => wWrite s c k dry w)
+  let r := handleState s .root s.inUse dry (fun s c => wWrite s c k dry w)
+  (r.1, { r.2.1 with inUse := r.2.2 })
 
 /-- An element of a bulk in the `events` workload: kind, scripted outcome, write id. -/
 structure BEl where
@@ -77,40 +81,40 @@ structure BEl where
   w : Nat
   deriving Repr, DecidableEq, Inhabited
 
-/-- `processElement` on controller `c` (bulk elements are never dry runs). -/
-def applyOn (c : Option W) (e : BEl) (s : St) : Except Ret Unit × St :=
-  let (r, s) :=
-    match c with
-    | none => facadeWrite s e.kind false e.w      -- the bulker's own controller: the facade
-    | some c => wWrite s c e.kind false e.w       -- the controller returned by `BeginTX`
-  match r with
-  | .ok => (.ok (), s)
-  | e => (.error e, s)
+/-- State of a bulk run: the stack state and, for an atomic bulk, the facade
+    returned by `controllerFacade.BeginTX`: the transaction wrapper and that
+    facade's own cached ledger state (a snapshot taken at `BeginTX`). -/
+abbrev BSt := St × Option (W × Bool)
 
-/-- State of a bulk run: the stack state and the transaction wrapper (if atomic). -/
-abbrev BSt := St × Option W
+/-- `processElement` (bulk elements are never dry runs): a write method of the
+    facade the bulker holds. -/
+def bulkApply (e : BEl) (p : BSt) : Except Ret Unit × BSt :=
+  match p.2 with
+  | none =>
+    let r := facadeWrite p.1 e.kind false e.w
+    ((match r.1 with | .ok => .ok () | x => .error x), (r.2, none))
+  | some (c, iu) =>
+    let r := handleState p.1 c iu false (fun s c => wWrite s c e.kind false e.w)
+    ((match r.1 with | .ok => .ok () | x => .error x), (r.2.1, some (c, r.2.2)))
 
 def bulkCtrl : Bulk.Ctrl BSt Ret where
-  -- `ctrl.BeginTX` on the facade is the embedded events wrapper's `BeginTX`
+  -- `controllerFacade.BeginTX`: the events wrapper's `BeginTX`, wrapped in a new
+  -- facade with a snapshot of the cached ledger state
   begin := fun (s, _) =>
     match wBegin s .root with
-    | (.ok c, s) => (.ok (), (s, some c))
+    | (.ok c, s) => (.ok (), (s, some (c, s.inUse)))
     | (.error e, s) => (.error e, (s, none))
   commit := fun (s, c) =>
     match c with
     | none => (.ok (), (s, c))
-    | some w =>
+    | some (w, _) =>
       match wCommit s w with
       | (.ok, s) => (.ok (), (s, c))
       | (e, s) => (.error e, (s, c))
   rollback := fun (s, c) =>
     match c with
     | none => (s, c)
-    | some w => ((wRollback s w).2, c)
-
-def bulkApply (e : BEl) (p : BSt) : Except Ret Unit × BSt :=
-  let (r, s) := applyOn p.2 e p.1
-  (r, (s, p.2))
+    | some (w, _) => ((wRollback s w).2, c)
 
 /-- A sequential bulk through the real `Bulker` over the facade. -/
 def bulkOp (s : St) (atomic cof : Bool) (els : List BEl) :
